@@ -422,6 +422,7 @@ def run(ctx):
 
     # ---- 5. witnesses and keys
     agg = collections.OrderedDict()
+    not_executed = []
     for fam in FAMS:
         F = fams[fam]
         base = ID_BASE[fam]
@@ -450,6 +451,11 @@ def run(ctx):
             judged = [o for o in r["obs"] if o["out"] not in ("not-reached", "stuck")]
             for b in bad[cid]:
                 o = judged[b["i"] - 1]
+                if fam == "live" and lab.get("cfg") == "nocontrol" and str(o.get("site", "")).startswith("controlConn."):
+                    # safety net: the unexported test-only switch leaves Session.control nil; a crash under
+                    # controlConn.* with it is not the network's doing: the case counts as not executed
+                    not_executed.append(cid)
+                    continue
                 key = classify(fam, lab, o, b["why"])
                 agg.setdefault(key, []).append((fam, lab, inp, o, b["why"], r.get("stack", "")))
     for key, lst in agg.items():
@@ -461,6 +467,9 @@ def run(ctx):
             json.dumps(lab, separators=(",", ":"))[:300], len(lst), ", ".join("%s x%d" % kv for kv in where.most_common(6)))
         ctx.violation(key, what, dict(family=fam, label=lab, input=inp, observation=o, why=why, stack=stack[:3000],
                                       others=[dict(label=x[1], stage=x[3]["st"]) for x in lst[1:12]]))
+    if not_executed:
+        ctx.notes.append("%d live case(s) under the test-only nocontrol configuration ended under controlConn.* (nil control connection): "
+                         "not executed, not judged" % len(not_executed))
     if flaky and not agg:
         # never "held" with an unexplained death; (with violations found the deaths are usually their aftermath:
         # the harness goes on after a recovered panic of the application's goroutine)
